@@ -77,6 +77,11 @@ impl<'a> TXT<'a> {
                 None => continue,
             };
 
+            // RFC 6763 section 6.4: strings with a missing (empty) key are silently ignored
+            if key.is_empty() {
+                continue;
+            }
+
             let value = match splited.next() {
                 Some(value) if !value.is_empty() => match std::str::from_utf8(value) {
                     Ok(v) => Some(v.to_owned()),
